@@ -20,6 +20,7 @@ const queueSize = 100
 // Watcher transaction store watcher
 type Watcher struct {
 	transactions transactionstore.Store
+	proposals    proposalstore.Store
 	cancel       context.CancelFunc
 	mu           sync.Mutex
 }
@@ -47,6 +48,16 @@ func (w *Watcher) Start(ch chan<- controller.ID) error {
 			// The next Transaction waits for this one to be initialized. It is re-queued by the reconcile pass that
 			// initializes this one, but not if that pass fails after its write took effect: wake it on every change.
 			ch <- controller.NewID(event.Transaction.Index + 1)
+			// The Transactions that follow a SERIALIZABLE Transaction on one of its targets wait for its state to
+			// change (reconcileInitialize, reconcileValidate, reconcileCommit) and nothing else wakes them: enqueue
+			// the successor recorded in each of its Proposals.
+			if event.Transaction.Isolation == configapi.TransactionStrategy_SERIALIZABLE && w.proposals != nil {
+				for _, proposalID := range event.Transaction.Status.Proposals {
+					if proposal, err := w.proposals.Get(ctx, proposalID); err == nil && proposal.Status.NextIndex > 0 {
+						ch <- controller.NewID(proposal.Status.NextIndex)
+					}
+				}
+			}
 		}
 	}()
 	return nil
